@@ -4,6 +4,6 @@
 package elector
 
 // Verification hooks: deliver the callbacks client-go's leader election would deliver.
-func VerifStartLeading(l LeaderElector, shard int)          { l.(*leaderElector).startLeading(shard) }
-func VerifStopLeading(l LeaderElector, shard int)           { l.(*leaderElector).stopLeading(shard) }
-func VerifSetLeader(l LeaderElector, shard int, id string)  { l.(*leaderElector).setLeader(shard, id) }
+func VerifStartLeading(l LeaderElector, shard int)         { l.(*leaderElector).startLeading(shard) }
+func VerifStopLeading(l LeaderElector, shard int)          { l.(*leaderElector).stopLeading(shard) }
+func VerifSetLeader(l LeaderElector, shard int, id string) { l.(*leaderElector).setLeader(shard, id) }
